@@ -901,7 +901,7 @@ def judge_extend(ctx, env, case, res):
 # 6. Generators
 # =============================================================================================
 ALL = list(range(6))
-FULLH = ALL + [10, 11, 12, 20, 21, 22]
+FULLH = ALL + [10, 11, 12, 20, 21, 22, 23]
 
 
 def full(c):
@@ -937,24 +937,76 @@ def gen_exh_citations(idvars=(0, 1, 2, 3), statedvars=(0, 1, 2), sizes=(1, 2, 3)
 def gen_exh_nesting():
     """[a, B, b] where B is a `subproof` block or a `verif_exp` expansion with two inner items;
     each of the inner items and b carries <= 1 citation from a menu that contains the legal ones and
-    forward / enclosing / into-the-closed-block / missing / negative ones."""
+    forward / enclosing / into-the-closed-block / missing / negative ones.  The inner items carry
+    their positions as ids, or (second variant) ids whose last component is one too large."""
     C = [None, [0], [1], [2], [1, 0], [1, 1], [1, 2], [0, 0], [-1], [1, -1]]
+    pv = lambda c: [] if c is None else [list(c)]
     for shape in ("subproof", "expansion", "expansion-stated"):
-        for c0, c1, cb in itertools.product(C, repeat=3):
-            for ng in (False,):
+        for iv in (0, 1):
+            for c0, c1, cb in itertools.product(C, repeat=3):
                 a = [[0], "verif_ax", [[1], 1], [], None, None]
-                pv = lambda c: [] if c is None else [list(c)]
                 if shape == "subproof":
-                    inner = [[[1, 0], "verif_join", 20, pv(c0), full(20), None],
-                             [[1, 1], "verif_join", 21, pv(c1), full(21), None]]
+                    inner = [[[1, 0 + iv], "verif_join", 20, pv(c0), full(20), None],
+                             [[1, 1 + iv], "verif_join", 21, pv(c1), full(21), None]]
                     B = [[1], "subproof", None, [], full(21), inner]
                 else:
                     st = full(21) if shape == "expansion-stated" else None
-                    spec = lambda k, c: [[0, k], "verif_join", 20 + k, [] if c is None else [[1] + list(c)], full(20 + k), None]
+                    spec = lambda k, c: [[0, k + iv], "verif_join", 20 + k, [] if c is None else [[1] + list(c)], full(20 + k), None]
                     B = [[1], "verif_exp", [full(21), [spec(0, c0), spec(1, c1)]], [], st, None]
                 b = [[2], "verif_join", 22, pv(cb), full(22), None]
                 for lvl in ((0,) if shape == "subproof" else (0, 1)):
-                    yield {"cfg": [ng, False, lvl], "thms": [], "items": [a, B, b]}
+                    if iv == 1 and lvl == 1:
+                        continue
+                    yield {"cfg": [False, False, lvl], "thms": [], "items": [a, B, b]}
+
+
+def gen_exh_two_blocks():
+    """[B0, B1, b]: two blocks (subproof or expansion) of two items each; the items of B1 and b cite
+    into B0 (a closed block), into B1, the blocks themselves, or nothing."""
+    C = [None, [0], [1], [0, 0], [0, 1], [1, 0], [1, 1], [0, 0, 0]]
+    pv = lambda c: [] if c is None else [list(c)]
+    for kind0, kind1 in itertools.product(("subproof", "expansion"), repeat=2):
+        for c10, c11, cb in itertools.product(C, repeat=3):
+            blocks = []
+            for bi, (kind, cs) in enumerate(((kind0, (None, None)), (kind1, (c10, c11)))):
+                if kind == "subproof":
+                    inner = [[[bi, k], "verif_join", 20 + 2 * bi + k, pv(cs[k]), full(20 + 2 * bi + k), None] for k in range(2)]
+                    blocks.append([[bi], "subproof", None, [], full(21 + 2 * bi), inner])
+                else:
+                    spec = lambda k, c: [[0, k], "verif_join", 20 + 2 * bi + k, [] if c is None else [[1] + list(c)], full(20 + 2 * bi + k), None]
+                    blocks.append([[bi], "verif_exp", [full(21 + 2 * bi), [spec(0, cs[0]), spec(1, cs[1])]], [], full(21 + 2 * bi), None])
+            b = [[2], "verif_join", 12, pv(cb), full(12), None]
+            yield {"cfg": [False, False, 0], "thms": [], "items": blocks + [b]}
+
+
+def gen_exh_gaps():
+    """One placeholder at every kind of place (top level, block, nested block, expansion, nested
+    expansion, block inside an expansion, expansion inside a block) x no_gaps x check level."""
+    gap = lambda id_: [id_, "sorry", None, [], [[], 1], None]
+    gspec = lambda k: [[0] + k, "sorry", None, [], [[], 1], None]
+    ax = lambda id_: [id_, "verif_ax", [[], 1], [], None, None]
+    axs = lambda k: [[0] + k, "verif_ax", [[], 1], [], None, None]
+    places = {
+        "top": [gap([0])],
+        "none": [ax([0])],
+        "block": [[[0], "subproof", None, [], None, [ax([0, 0]), gap([0, 1])]]],
+        "block-first": [[[0], "subproof", None, [], None, [gap([0, 0]), ax([0, 1])]]],
+        "nested-block": [[[0], "subproof", None, [], None, [[[0, 0], "subproof", None, [], None, [gap([0, 0, 0])]]]]],
+        "expansion": [[[0], "verif_exp", [[[], 1], [axs([0]), gspec([1])]], [], None, None]],
+        "nested-expansion": [[[0], "verif_exp", [[[], 1], [[[0, 0], "verif_exp2", [[[], 1], [gspec([0, 0])]], [], None, None]]], [], None, None]],
+        "block-in-expansion": [[[0], "verif_exp", [[[], 1], [[[0, 0], "subproof", None, [], None, [gspec([0, 0])]]]], [], None, None]],
+        "expansion-in-block": [[[0], "subproof", None, [], None, [[[0, 0], "verif_exp", [[[], 1], [[[0, 0, 0], "sorry", None, [], [[], 1], None]]], [], None, None]]]],
+        "unvisited-subproof": [[[0], "verif_ax", [[], 1], [], None, [gap([0, 0])]]],
+    }
+    for name, items in places.items():
+        for ng in (False, True):
+            for co in (False, True):
+                for lvl in (0, 1, 2):
+                    for tail in (False, True):
+                        its = json.loads(json.dumps(items))
+                        if tail:
+                            its.append([[1], "verif_id", None, [[0]], None, None])
+                        yield {"cfg": [ng, co, lvl], "thms": [], "items": its}
 
 
 def gen_exh_stated():
@@ -1408,7 +1460,8 @@ def run(ctx):
         "expansion is given literally in the argument, plus assume/implies_elim/theorem/sorry/subproof/empty lines): "
         "(a) every flat proof of <=3 items with <=2 citations each from {-1,0,1,2,0.0} x 4 id assignments x 3 statement patterns "
         "(thorough: all; quick: a random sample), (b) every [a, block, b] with a subproof or an expansion of two items and <=1 citation "
-        "per item from 10 candidates, (c) chains of <=3 items x 6 ways a statement relates to what the rule yields x 5 configurations, "
+        "per item from 10 candidates, every [block, block, b] with citations into the closed first block, one placeholder at each of 10 kinds "
+        "of place x no_gaps x compute_only x level, (c) chains of <=3 items x 6 ways a statement relates to what the rule yields x 5 configurations, "
         "(d) random proofs of up to 12 items, nested blocks and expansions, then perturbed (ids, citations, statements, structure); "
         "checked_extend on all pairs (theorem, proof) of a pool and on short extension lists. non-trivial = at least two items and one "
         "citation; distinct by the whole case.")
@@ -1458,6 +1511,8 @@ def run(ctx):
             stream_check(ctx, env, sample, "exh-cite")
         # (b) nesting, (c) statements
         stream_check(ctx, env, list(gen_exh_nesting()), "exh-nest")
+        stream_check(ctx, env, list(gen_exh_two_blocks()), "exh-blocks")
+        stream_check(ctx, env, list(gen_exh_gaps()), "exh-gaps")
         st = list(gen_exh_stated())
         if ctx.tier == "quick":
             st = ctx.rng("stated").sample(st, min(len(st), 5000))
